@@ -367,6 +367,60 @@ func runIsoMask(c *core.Ctx) []core.Obligation {
 		}
 	}
 
+	// ---- the fast path may only reject what it has recognised: an error returned by Parse itself
+	// (not the fallback's) is justified once the separators of the fixed layout have been matched
+	// (then the string is that layout with a bad digit or an out-of-range field, which time.Parse
+	// rejects too); a rejection on the way there — on length alone, say — drops layouts that only
+	// time.Parse knows (2006-01-02T5:04:05Z has 19 bytes)
+	{
+		var matches []*ssa.Call
+		for _, blk := range parse.Blocks {
+			for _, in := range blk.Instrs {
+				if call, ok := in.(*ssa.Call); ok {
+					if f := staticCallee(call.Common()); f != nil && f.Name() == "match" {
+						matches = append(matches, call)
+					}
+				}
+			}
+		}
+		n, bad := 0, ""
+		for _, r := range returnsOf(parse) {
+			if len(r.Results) != 2 || isNilConst(r.Results[1]) {
+				continue
+			}
+			// the fallback's own rejection follows the time.Parse call
+			afterFallback := false
+			for x := r.Block(); x != nil; x = x.Idom() {
+				for _, ci := range callsIn2(x) {
+					if calleeName(ci.Common()) == "time.Parse" {
+						afterFallback = true
+					}
+				}
+			}
+			if afterFallback {
+				continue
+			}
+			n++
+			for _, m := range matches {
+				if !(m.Block() == r.Block() || m.Block().Dominates(r.Block())) {
+					bad = c.InstrPos(r)
+				}
+			}
+			if len(matches) == 0 {
+				bad = c.InstrPos(r)
+			}
+		}
+		key := "reject-only-after-layout-match"
+		switch {
+		case n == 0:
+			b.und(key, c.FuncPos(parse), "no rejection found in the fast path")
+		case bad != "":
+			b.bad(key, bad, "Parse returns an error of its own on a path where the separators of the fixed layout have not all been matched: inputs of another layout that time.Parse(time.RFC3339Nano, s) accepts (a one-digit hour makes a 19-byte timestamp) are rejected instead of being handed to the fallback")
+		default:
+			b.ok(key, c.FuncPos(parse), fmt.Sprintf("%d fast-path rejections, each after all %d separator matches", n, len(matches)))
+		}
+	}
+
 	// ---- fraction separator: the fast path's early rejection must let through exactly the
 	// separators time.Parse accepts before fractional seconds ('.' and ',')
 	{
